@@ -46,6 +46,30 @@ fn stream(r: &mut Rng, chunked: bool, eintr: bool) -> StreamSpec {
     StreamSpec { chunks, eintr, error_at: None }
 }
 
+/// A variant of `job` that shares its names: 1-2 token-level changes (a token retyped as another
+/// token of the same program, lost, duplicated, swapped, a line lost or duplicated).
+pub fn sibling(r: &mut Rng, job: &JobSpec) -> JobSpec {
+    const KINDS: [&str; 8] = ["own_subst", "own_subst", "own_subst", "lost_token", "dup_token", "swap_tokens", "lost_line", "token_subst"];
+    let mut src = job.source.0.clone();
+    let n = 1 + r.usize_below(2);
+    let mut desc = Vec::new();
+    for _ in 0..n {
+        let kind = *r.pick(&KINDS);
+        let sp = faults::space(kind, &src);
+        if sp > 0 {
+            let f = faults::nth(kind, &src, r.usize_below(sp));
+            src = f.apply(&src);
+            desc.push(f.kind());
+        }
+    }
+    let mut j = job.clone();
+    j.source = Bytes(src);
+    j.label = format!("sibling of {} {:?}", job.label, desc);
+    j.reader = StreamSpec::canonical();
+    j.writer = StreamSpec::canonical();
+    j
+}
+
 #[derive(Clone, Copy, Debug, Default)]
 pub struct Dims {
     pub keys: bool,
@@ -93,6 +117,8 @@ pub fn c05_world(seed: u64, corpus: &[Program]) -> (World, Dims) {
         }
         jobs.push(job);
     }
+    // history made of siblings: the job that runs just before job k on its thread is a slightly
+    // damaged variant of job k (same names, other meanings) - decided after placement, see below
     if d.hard {
         let j = r.usize_below(jobs.len());
         if r.chance(1, 2) {
@@ -114,6 +140,17 @@ pub fn c05_world(seed: u64, corpus: &[Program]) -> (World, Dims) {
     for (i, j) in order.iter().enumerate() {
         let t = if i < nthreads { i } else { r.usize_below(nthreads) };
         threads[t].jobs.push(*j);
+    }
+    if d.history {
+        for t in threads.iter() {
+            for k in 1..t.jobs.len() {
+                if r.chance(1, 2) {
+                    let (prev, cur) = (t.jobs[k - 1], t.jobs[k]);
+                    let sib = sibling(&mut r, &jobs[cur]);
+                    jobs[prev] = sib;
+                }
+            }
+        }
     }
     let sched = if d.interleave {
         match r.below(3) {
